@@ -70,3 +70,60 @@ func MailboxName(mode, addr string) (string, bool) {
 	}
 	return "", false
 }
+
+// HasDomain reports whether key contains an unquoted, unescaped "@" (it is an
+// address rather than a bare mailbox name).  A leading source route is skipped.
+func HasDomain(key string) bool {
+	if strings.HasPrefix(key, "@") {
+		i := strings.Index(key, ":")
+		if i < 0 {
+			return false
+		}
+		key = key[i+1:]
+	}
+	inQuote, esc := false, false
+	for i := 0; i < len(key); i++ {
+		switch ch := key[i]; {
+		case esc:
+			esc = false
+		case ch == '\\':
+			esc = true
+		case ch == '"':
+			inQuote = !inQuote
+		case ch == '@' && !inQuote:
+			return true
+		}
+	}
+	return false
+}
+
+// LookupName returns the mailbox a read interface must open when a user asks
+// for key.  key is either an address (then it names what MailboxName says:
+// property C04, "the name computed when mail is received is the same name
+// every read interface computes when a user asks for that address") or a
+// mailbox name itself, which must be a fixed point ("asking for the mailbox by
+// its own name ... reaches the same mailbox") and, like an address, must not
+// depend on letter case or a "+extension":
+//
+//	local : a bare key is a local part: "+extension" removed, case folded
+//	full  : every mailbox name contains "@"; a bare key names no mailbox
+//	domain: a bare key is a domain: case folded
+func LookupName(mode, key string) (string, bool) {
+	if HasDomain(key) {
+		return MailboxName(mode, key)
+	}
+	if key == "" {
+		return "", false
+	}
+	switch mode {
+	case "local":
+		l := strings.ToLower(key)
+		if i := strings.Index(l, "+"); i >= 0 {
+			l = l[:i]
+		}
+		return l, l != ""
+	case "domain":
+		return strings.ToLower(key), true
+	}
+	return "", false
+}
